@@ -69,7 +69,8 @@ Record auxinv (lgk : N) (a : auxmap) : Prop := {
   ai_cnt : a_cnt a = lenN (nonzero (a_ent a));
   ai_load : 4 * a_cnt a <= 3 * 2 ^ a_lg a;
   ai_nodup : NoDup (map (akey lgk) (nonzero (a_ent a)));
-  ai_wf : Forall (wf_entry lgk) (nonzero (a_ent a))
+  ai_wf : Forall (wf_entry lgk) (nonzero (a_ent a));
+  ai_small : a_lg a <= lgk + 1
 }.
 
 Definition aents (ax : option auxmap) : list N :=
@@ -99,6 +100,24 @@ Proof.
   do 22 (destruct n as [|n]; [simpl; lia|]). lia.
 Qed.
 
+Lemma lg_aux_le lgk : 4 <= lgk -> lgk <= 21 -> lg_aux_arr_ints lgk <= lgk + 1.
+Proof.
+  intros H1 H2. unfold lg_aux_arr_ints.
+  assert (Hn : (4 <= N.to_nat lgk <= 21)%nat) by lia.
+  replace lgk with (N.of_nat (N.to_nat lgk)) at 2 by lia. revert Hn. generalize (N.to_nat lgk). intros n Hn.
+  do 22 (destruct n as [|n]; [simpl; lia|]). lia.
+Qed.
+
+(* distinct keys below 2^lgk: at most 2^lgk of them *)
+Lemma keys_count_le lgk (es : list N) : lgk <= 26 -> NoDup (map (akey lgk) es) -> Forall (wf_entry lgk) es -> lenN es <= 2 ^ lgk.
+Proof.
+  intros Hk Hnd Hwf.
+  assert (Hl : (length (map (akey lgk) es) <= length (seqN (2 ^ lgk)))%nat).
+  { apply NoDup_incl_length; [exact Hnd|]. intros x Hx. apply in_map_iff in Hx. destruct Hx as (e & <- & He).
+    rewrite Forall_forall in Hwf. apply in_seqN. apply (wf_entry_facts lgk e Hk (Hwf e He)). }
+  rewrite map_length in Hl. pose proof (seqN_length (2 ^ lgk)) as Hs. unfold lenN in *. lia.
+Qed.
+
 Section WithLgk.
   Variable lgk : N.
   Hypothesis lgk_lo : 4 <= lgk.
@@ -112,6 +131,7 @@ Section WithLgk.
     - reflexivity.
     - constructor.
     - constructor.
+    - now apply lg_aux_le.
   Qed.
 
   Lemma arep_new : arep lgk (Some (aux_new lgk)) (fun _ => None).
@@ -183,6 +203,7 @@ Section WithLgk.
       + pose proof (ai_wf _ _ Hinv) as Hw. rewrite E1 in Hw. rewrite E2.
         apply Forall_app in Hw. destruct Hw as [W1 W2]. inversion W2; subst.
         apply Forall_app. split; auto. constructor; auto. exists s, v'. auto.
+      + apply (ai_small _ _ Hinv).
     - intros t w. cbn [aents a_ent]. rewrite E2.
       pose proof (ai_nodup _ _ Hinv) as Hnd. rewrite E1 in Hnd.
       destruct (N.eqb_spec t s) as [->|Hne].
@@ -297,13 +318,17 @@ Section WithLgk.
           -- rewrite N.pow_add_r. change (2 ^ 1) with 2. lia.
           -- eapply Permutation_NoDup; [|exact Hnd']. apply Permutation_map. now apply Permutation_sym.
           -- eapply Permutation_Forall; [|exact Hwf']. now apply Permutation_sym.
+          -- pose proof (keys_count_le lgk (nonzero ent') ltac:(lia) Hnd' Hwf') as Hkc. rewrite Hlen' in Hkc.
+             destruct (N.le_gt_cases (a_lg a) lgk) as [|Hgt]; [lia|]. exfalso.
+             assert (Hp : 2 ^ (lgk + 1) <= 2 ^ a_lg a) by (apply N.pow_le_mono_r; lia).
+             rewrite N.pow_add_r in Hp. change (2 ^ 1) with 2 in Hp. lia.
         * cbn [aents a_ent]. apply (rep_after_insert (nonzero (a_ent a)) (nonzero ne)); auto.
           intros x. rewrite <- Hin'. split; intros Hx.
           -- eapply Permutation_in; [exact Hperm|exact Hx].
           -- eapply Permutation_in; [apply Permutation_sym; exact Hperm|exact Hx].
     - eexists. split; [reflexivity|]. split.
       + constructor; cbn [a_lg a_cnt a_ent]; auto;
-          try (apply (ai_lgk _ _ Hinv)); try (now symmetry); try lia.
+          try (apply (ai_lgk _ _ Hinv)); try (now symmetry); try lia; try (apply (ai_small _ _ Hinv)).
       + cbn [aents a_ent]. apply (rep_after_insert (nonzero (a_ent a)) (nonzero ent')); auto.
   Qed.
 End WithLgk.
